@@ -395,7 +395,8 @@ def default_index(fam):
 
 
 def gen_instances(rng, fam, exact=True):
-    """instance design locations: all master locations, axis extremes and beyond, interior dyadic points"""
+    """instance design locations: all master locations, axis extremes and beyond, interior dyadic points, points just
+    off a master location (gen_near_master)"""
     axes = fam["axes"]
     out = []
     for s in fam["sources"]:
@@ -417,8 +418,54 @@ def gen_instances(rng, fam, exact=True):
                 v = rng.choice([design(ax, rng.random() * 2 - 1), design(ax, rng.randrange(-10, 11) / 10), ax["ddef"] + 1])
             loc.append([ax["name"], v])
         out.append(loc)
+    near = gen_near_master(rng, fam, exact)
     rng.shuffle(out)
-    return out[:7]
+    out = out[:7 - len(near)]
+    for loc in near:
+        out.insert(rng.randrange(len(out) + 1), loc)
+    return out
+
+
+NEAR_EXACT = [2.0 ** -11, 2.0 ** -12, 2.0 ** -13, 2.0 ** -16]       # all < 0.0005: inside any "3 decimals" plateau
+NEAR_TOL = [0.0004, 0.0003, 0.00045, 0.0001]
+
+
+def gen_near_master(rng, fam, exact=True):
+    """0-2 instance locations that are NOT a master location but lie within 0.0005 (normalized) of one on every axis
+    (just off a master, on one axis or on all; towards the inside of the axis range so that clamping cannot put them
+    on the master).  The design values are not rounded (instance locations never go through the XML file); on the exact
+    grids master +- span * 2^-k is exact in doubles."""
+    if rng.random() < 0.4:
+        return []
+    axes = fam["axes"]
+    out = []
+    for _ in range(rng.choice([1, 1, 2])):
+        s = rng.choice(fam["sources"])
+        m = {ax["name"]: ax["ddef"] for ax in axes}
+        m.update({n: v for n, v in s["loc"]})
+        loc, moved = [], False
+        for ax in axes:
+            v = m[ax["name"]]
+            dirs = []
+            if v > ax["ddef"]:
+                dirs = [(-1, ax["dmax"] - ax["ddef"])] + ([(1, ax["dmax"] - ax["ddef"])] if v < ax["dmax"] else [])
+            elif v < ax["ddef"]:
+                dirs = [(1, ax["ddef"] - ax["dmin"])] + ([(-1, ax["ddef"] - ax["dmin"])] if v > ax["dmin"] else [])
+            else:
+                if ax["dmax"] > ax["ddef"]:
+                    dirs.append((1, ax["dmax"] - ax["ddef"]))
+                if ax["dmin"] < ax["ddef"]:
+                    dirs.append((-1, ax["ddef"] - ax["dmin"]))
+            if dirs and (rng.random() < 0.75 or (not moved and ax is axes[-1])):
+                sg, span = rng.choice(dirs)
+                v = v + sg * span * rng.choice(NEAR_EXACT if exact else NEAR_TOL)
+                moved = True
+            elif v == ax["ddef"] and rng.random() < 0.3:
+                continue                                    # axis left out: default
+            loc.append([ax["name"], v])
+        if moved:
+            out.append(loc)
+    return out
 
 
 # ------------------------------------------------------------------ encoding for the Lean model
